@@ -3,7 +3,10 @@ package compiler
 import (
 	"fmt"
 	"io"
+	"maps"
 	"path/filepath"
+	"slices"
+	"strings"
 
 	"github.com/DDP-Projekt/Kompilierer/src/ast"
 	"github.com/DDP-Projekt/Kompilierer/src/ast/annotators"
@@ -203,7 +206,10 @@ func (c *compiler) compile(w io.Writer, isMainModule bool) (result *Result, rerr
 	if isMainModule {
 		c.scp = c.exitScope(c.scp) // exit the main scope
 		// call all the module_dispose functions
-		for mod := range c.importedModules {
+		// in a fixed order (not the order of the map), so that the emitted code does not change from run to run
+		for _, mod := range slices.SortedFunc(maps.Keys(c.importedModules), func(a, b *ast.Module) int {
+			return strings.Compare(a.FileName, b.FileName)
+		}) {
 			_, dispose_name := getModuleInitDisposeName(mod)
 			dispose_fun := c.functions[dispose_name]
 			c.cbb.NewCall(dispose_fun.irFunc)
